@@ -1,7 +1,7 @@
 # registry fragment for C17 (exec'd by tools/checks.py with CHECKS, ASSUME_COMMON, NOT_APPLICABLE in scope)
 _c17_s = dict(maxw=4, maxh=3, grid=4, extra=1, variants=1, far=1)
 _c17_t = dict(maxw=7, maxh=7, grid=32, extra=1, variants=2, far=1)
-_c17_w = ['self_multiplication', 
+_c17_w = ['self_multiplication', 'resample_destination_window', 
         'bil_case_top_left', 'bil_case_first_row', 'bil_case_top_right', 'bil_case_first_col', 'bil_case_interior',
         'bil_case_last_col', 'bil_case_bottom_left', 'bil_case_last_row', 'bil_case_bottom_right',
         'bil_outside', 'nn_outside', 'nn_inside', 'nn_tie_points', 'integer_point_inside',
